@@ -121,15 +121,15 @@ theorem rset_iter_eq_spec_source (sel : Sel) (adm : Admissible sel) (m : Members
       some (setSpec m.inc m.exc, (setSpec m.inc m.exc).length) := by
   rw [gen_rset_iter_eq_model sel adm m, rset_iter_eq_spec sel adm m.inc m.exc hinc hexc]
 
-/-- `_genitem` as translated: `__init__` is `mkCursor`; `__next__` on the item at index 0 is `advanceTop` (dirty exactly when the
-    key changed in place); the comparison methods compare `dt` with the operator of their name -/
+/-- `_genitem` as translated: `__init__` is `mkCursor`; `__next__` is `advanceTop` wherever the item sits (`heappop` only when it is at index 0,
+    `remove` + `heapify` otherwise); the comparison methods compare `dt` with the operator of their name -/
 theorem gen_genitem_eq_model :
     (∀ st, MergePy.runInit Gen.genitemInit st = some (mkCursor st)) ∧
-    (∀ c others, (MergePy.runNext Gen.genitemNext c true others).map (·.1) = some (advanceTop c others)) ∧
+    (∀ c isTop others, (MergePy.runNext Gen.genitemNext c isTop others).map (·.1) = some (advanceTop c others)) ∧
     Gen.genitemCmp = { lt := .lt, gt := .gt, eq := .eq, ne := .ne } := by
-  refine ⟨fun st => ?_, fun c others => ?_, rfl⟩
+  refine ⟨fun st => ?_, fun c isTop others => ?_, rfl⟩
   · cases st <;> simp [MergePy.runInit, Gen.genitemInit, mkCursor]
-  · cases h : c.rest <;> simp [MergePy.runNext, Gen.genitemNext, advanceTop, h]
+  · cases h : c.rest <;> cases isTop <;> simp [MergePy.runNext, Gen.genitemNext, advanceTop, h]
 
 -- the obligation distinguishes programs: without the `heapreplace` after advancing the inclusion item the heap stays dirty
 example : MergePy.runIter selFirstMin Gen.genitemInit Gen.genitemNext Gen.genitemCmp
